@@ -9,10 +9,13 @@ The payload (``coupled_systems()`` draws it, everything is a JSON primitive)
 ::
 
     {"q": 0.2,                              # contraction factor of the whole system
-     "x": [{"name": "x0", "size": 2}, ...], # design inputs (read by disciplines, produced by nobody)
+     "x": [{"name": "x0", "size": 2}, ...], # design inputs (read by disciplines, produced by nobody); an optional
+                                            # "scale": 1e-13 multiplies every block w.r.t. that input (an input
+                                            # expressed in a unit that makes all its sensitivities tiny)
      "discs": [                             # one entry per discipline, in LIST order
         {"name": "D0",
-         "jac": "dense" | "sparse",         # format of the blocks stored by _compute_jacobian
+         "jac": "dense" | "sparse" | "operator",  # blocks stored by _compute_jacobian: ndarray, csr_array or
+                                            # matrix-free gemseo JacobianOperator (matvec / rmatvec only)
          "outputs": [
             {"name": "yb", "size": 2,
              "c":    [1, -2],                       # constant term, real value c/2
@@ -98,6 +101,7 @@ class CoupledSystem:
             raise ValueError("contraction factor must lie in [0, 1)")
         self.x_names = [v["name"] for v in payload["x"]]
         self.sizes = {v["name"]: int(v["size"]) for v in payload["x"]}
+        self.x_scale = {v["name"]: float(v.get("scale", 1.0)) for v in payload["x"]}
         self.disc_names = [d["name"] for d in payload["discs"]]
         self.producer = {}  # output name -> discipline index
         self.out_names = []  # all outputs, discipline after discipline
@@ -133,7 +137,7 @@ class CoupledSystem:
                 for name in names:
                     if name not in self.sizes:
                         raise ValueError(f"unknown input {name}")
-                    f = self.scale if name in self.producer else X_SCALE
+                    f = self.scale if name in self.producer else X_SCALE * self.x_scale[name]
                     lin = o.get("lin", {}).get(name)
                     tnh = o.get("tanh", {}).get(name)
                     # integer blocks and their factor are kept apart: block @ u is exact on the
@@ -376,6 +380,15 @@ def _harness_class(grammar_type: str):
     Discipline = _discipline_base()  # noqa: N806
     from scipy.sparse import csr_array
 
+    def _as_operator(block: np.ndarray):
+        """The block as a matrix-free JacobianOperator (only products with the block / its transpose)."""
+        from gemseo.core.derivatives.jacobian_operator import JacobianOperator
+
+        operator = JacobianOperator(dtype=block.dtype, shape=block.shape)
+        operator._matvec = block.dot
+        operator._rmatvec = block.T.dot
+        return operator
+
     class HarnessDiscipline(Discipline):
         """A gemseo discipline evaluating discipline ``index`` of a :class:`CoupledSystem`.
 
@@ -436,6 +449,8 @@ def _harness_class(grammar_type: str):
                 jac[r][w] = -np.diag(diag)
             if self.jac_format == "sparse":
                 jac = {o: {i: csr_array(b) for i, b in row.items()} for o, row in jac.items()}
+            elif self.jac_format == "operator":
+                jac = {o: {i: _as_operator(b) for i, b in row.items()} for o, row in jac.items()}
             self.jac = jac
 
     HarnessDiscipline.__name__ = f"HarnessDiscipline_{grammar_type}"
@@ -484,6 +499,8 @@ def coupled_systems(
     nonlinear: bool | None = None,
     extra_outputs: bool = True,
     state_form: bool = False,
+    operator_jacobians: bool = False,
+    input_scales: bool = False,
     q_range: tuple[float, float] = (0.05, 0.3),
     max_size: int = 3,
 ):
@@ -502,6 +519,8 @@ def coupled_systems(
         nonlinear: whether tanh terms are present (None = drawn, 1/3 of the systems).
         extra_outputs: allow a second, non-coupling output on some disciplines.
         state_form: allow disciplines written in residual / state form (see the module docstring).
+        operator_jacobians: allow disciplines whose partial Jacobians are matrix-free JacobianOperator's.
+        input_scales: allow design inputs whose whole effect is scaled by 1e-10 or 1e-13 (badly scaled unit).
     """
     n = draw(st.integers(min_disc, max_disc))
     if all_strong is None:
@@ -525,6 +544,11 @@ def coupled_systems(
     names = draw(st.permutations(_NAMES[: max(n, 4)]))[:n]
     n_x = draw(st.integers(1, 3))
     xs = [{"name": f"x{k}", "size": draw(st.integers(1, 2))} for k in range(n_x)]
+    if input_scales:
+        for v in xs:
+            scale = draw(st.sampled_from([1.0, 1.0, 1.0, 1e-10, 1e-13]))
+            if scale != 1.0:
+                v["scale"] = scale
     sizes = [draw(st.integers(1, max_size)) for _ in range(n)]
     group_of = {i: gi for gi, g in enumerate(groups) for i in g}
     reads = {i: set() for i in range(n)}  # coupling inputs (discipline ids)
@@ -576,7 +600,8 @@ def coupled_systems(
                 if draw(st.booleans()) or not glin:
                     glin[name] = _block(draw, sz, all_sizes[name])
             outputs.append({"name": "g" + names[i][1:], "size": sz, "c": [draw(_COEF) for _ in range(sz)], "lin": glin})
-        disc = {"name": f"D{i}", "jac": draw(st.sampled_from(["dense", "dense", "sparse"])), "outputs": outputs}
+        formats = ["dense", "dense", "sparse"] + (["operator", "operator"] if operator_jacobians else [])
+        disc = {"name": f"D{i}", "jac": draw(st.sampled_from(formats)), "outputs": outputs}
         if state_form and i not in reads[i] and draw(st.integers(0, 3)) == 0:
             disc["state"] = [draw(st.sampled_from([1, 2, -1, 3])) for _ in range(sizes[i])]
         discs.append(disc)
